@@ -15,11 +15,14 @@ Record case := mkcase {
   cval : gv;                (* the typed value encoded *)
   ctree : item }.           (* dump of the interface{} the real Decoder produced *)
 
-(* a nil []byte under NilCollectionToZeroLength is written as an empty byte string by the reflection
-   path and as an empty array by the map fast paths: both are "empty" to every consumer *)
+(* a nil []byte under NilCollectionToZeroLength is written through the driver's writeNilBytes, not through
+   EncodeStringBytesRaw: an empty byte string in cbor / simple / binc, an empty STRING (fixstr 0) in msgpack
+   even with WriteExt, and an empty array by encodeValue's nil-slice branch (top-level pointer to a nil
+   []byte) and the map fast paths: all are "empty" to every consumer *)
 Fixpoint relax (i : item) : item :=
   match i with
   | IBytes [] => IArr []
+  | IStr [] => IArr []
   | IArr l => IArr (map relax l)
   | IMap l => IMap (map (fun kv => (relax (fst kv), relax (snd kv))) l)
   | _ => i
